@@ -48,6 +48,8 @@ type IfaceV struct {
 type ArrayV struct {
 	A *smt.Term
 	T *types.Array
+	// ConstLoc: the array was loaded from a constant table and is indexed in place (A is nil)
+	ConstLoc *Loc
 }
 
 type FuncV struct {
